@@ -61,7 +61,7 @@ pub fn configs() -> Vec<Config> {
 }
 
 /// reply classes; `n` of a class may depend on the honest reply length
-pub const CLASSES: [&str; 17] = [
+pub const CLASSES: [&str; 18] = [
     "bit-flip",
     "key-plus-k",
     "length-variants",
@@ -79,7 +79,9 @@ pub const CLASSES: [&str; 17] = [
     "checksum-permutation",
     "honest-control",
     "blind-attacker",
+    "reused-authentication-context",
 ];
+pub const REUSE_REPLIES: u64 = 5;
 
 /// CHALLENGE flag sets a man in the middle may present (it relays or rewrites the CHALLENGE at will)
 pub const BLIND_FLAGS: [u32; 14] = [
@@ -386,7 +388,7 @@ pub fn make_reply(ctx: &FinalCtx, class: usize, sub: u64, r: &mut Rng) -> Option
             };
             send(b)
         }
-        "blind-attacker" => None,
+        "blind-attacker" | "reused-authentication-context" => None,
         "tls-close" => {
             if sub >= 1 {
                 return None;
@@ -476,7 +478,101 @@ pub struct Outcome {
     pub skipped: bool,
 }
 
+/// The application keeps ONE authentication object and uses it for two connections in a row (the public API
+/// takes it by `&mut`). The first server is genuine and so learns that session's key; the second one does not know
+/// the account's secrets and answers the final round from what the first session revealed.
+fn run_reuse_case(conf: &Config, sub: u64, seed: u64) -> Result<Outcome, mon::PanicInfo> {
+    use rdp::core::{tpkt as ltpkt, x224 as lx224};
+    use rdp::model::link::{Link, Stream};
+    use rdp::nla::ntlm::Ntlm;
+    let skipped = Outcome { connect: Ok(()), reached_final_round: false, reply: vec![], honest: false, app_bytes_after: 0, auth_info_received: false, raw_bytes_after: 0, skipped: true };
+    if sub >= REUSE_REPLIES {
+        return Ok(skipped);
+    }
+    let mk_server = |which: u64| -> Duplex {
+        let mut p = Profile::default();
+        p.selected_protocol = 2;
+        let d = Duplex::new(p);
+        let mut nr = Rng::derive(seed, "C01-reuse-nla", which, sub);
+        let nla = crate::gen::nla_cfg(&mut nr, &conf.cfg);
+        d.with(|s| {
+            s.tls_identity = conf.identity;
+            s.tls12_only = conf.tls12_only;
+            s.nla_cfg = nla;
+        });
+        d
+    };
+    let cfg = conf.cfg.clone();
+    // first connection: genuine server; what it learns is kept
+    let learned: Arc<Mutex<Option<([u8; 16], Vec<u8>)>>> = Arc::new(Mutex::new(None));
+    let d1 = mk_server(1);
+    let l2 = learned.clone();
+    d1.with(|s| {
+        s.final_hook = Some(Box::new(move |ctx: &FinalCtx| {
+            *l2.lock().unwrap() = Some((ctx.session_key, ctx.honest_reply.clone()));
+            FinalAction::Send(ctx.honest_reply.clone())
+        }));
+    });
+    let d2 = mk_server(2);
+    let shared: Arc<Mutex<(bool, Vec<u8>)>> = Arc::new(Mutex::new((false, Vec::new())));
+    let (sh, l3) = (shared.clone(), learned.clone());
+    d2.with(|s| {
+        s.blind_hook = Some(Box::new(move |ctx: &BlindCtx| {
+            let (k1, reply1) = l3.lock().unwrap().clone().unwrap_or(([0u8; 16], Vec::new()));
+            let key1 = cssp::le_increment(&ctx.subject_public_key);
+            let b = match sub {
+                // key+1 of the certificate sealed under the FIRST session's key, fresh and continued cipher state
+                0 => ts(ctx.ts_version, Direction::new(&k1, false).wrap(&key1)),
+                1 => {
+                    let mut d = Direction::new(&k1, false);
+                    let _ = d.wrap(&key1);
+                    ts(ctx.ts_version, d.wrap(&key1))
+                }
+                // the first session's final reply, verbatim (same certificate, so same plaintext)
+                2 => reply1,
+                // the same under the client-to-server keys of the first session
+                3 => ts(ctx.ts_version, Direction::new(&k1, true).wrap(&key1)),
+                // the first session's key as if it were derived again with another sequence number
+                _ => {
+                    let mut d = Direction::new(&k1, false);
+                    d.seq = 1;
+                    ts(ctx.ts_version, d.wrap(&key1))
+                }
+            };
+            let mut g = sh.lock().unwrap();
+            g.0 = true;
+            g.1 = b.clone();
+            b
+        }));
+    });
+    let (p1, p2) = (d1.clone(), d2.clone());
+    let res = mon::guarded(move || -> Result<(Result<(), String>, Result<(), String>), String> {
+        let mut auth = match &cfg.hash {
+            Some(h) => Ntlm::from_hash(cfg.domain.clone(), cfg.user.clone(), h),
+            None => Ntlm::new(cfg.domain.clone(), cfg.user.clone(), cfg.password.clone()),
+        };
+        let first = lx224::Client::connect(ltpkt::Client::new(Link::new(Stream::Raw(d1.clone()))), 3, false, Some(&mut auth), cfg.restricted_admin, cfg.blank_creds).map(|_| ()).map_err(|e| client::err_kind(&e));
+        let second = lx224::Client::connect(ltpkt::Client::new(Link::new(Stream::Raw(d2.clone()))), 3, false, Some(&mut auth), cfg.restricted_admin, cfg.blank_creds).map(|_| ()).map_err(|e| client::err_kind(&e));
+        Ok((first, second))
+    })?;
+    let (first, second) = match res {
+        Ok(x) => x,
+        Err(_) => return Ok(skipped),
+    };
+    let first_ok = first.is_ok() && p1.with(|s| s.nla_log.auth_info_received);
+    let g = shared.lock().unwrap();
+    if !first_ok {
+        // the genuine first connection must work, otherwise the second tells nothing
+        return Ok(Outcome { connect: first, reached_final_round: false, reply: vec![], honest: false, app_bytes_after: 0, auth_info_received: false, raw_bytes_after: 0, skipped: false });
+    }
+    let (app_after, auth_info, raw_after) = p2.with(|s| (s.plain_after_final_reply, s.nla_log.auth_info_received, s.raw_mark_final.map(|m| s.raw_post_tls.len().saturating_sub(m)).unwrap_or(0)));
+    Ok(Outcome { connect: second, reached_final_round: g.0, reply: g.1.clone(), honest: false, app_bytes_after: app_after, auth_info_received: auth_info, raw_bytes_after: raw_after, skipped: false })
+}
+
 pub fn run_case(conf: &Config, class: usize, sub: u64, seed: u64) -> Result<Outcome, mon::PanicInfo> {
+    if CLASSES[class] == "reused-authentication-context" {
+        return run_reuse_case(conf, sub, seed);
+    }
     let mut p = Profile::default();
     p.selected_protocol = 2;
     let d = Duplex::new(p);
@@ -535,7 +631,7 @@ pub fn run_case(conf: &Config, class: usize, sub: u64, seed: u64) -> Result<Outc
     let _ = raw_before;
     let res = mon::guarded(move || client::connect_real(&cfg, d.clone()).map(|_| ()).map_err(|e| client::err_kind(&e)))?;
     let g = shared.lock().unwrap();
-    let (app_after, auth_info, raw_after) = probe.with(|s| (s.plain_after_final_reply, s.nla_log.auth_info_received, 0usize));
+    let (app_after, auth_info, raw_after) = probe.with(|s| (s.plain_after_final_reply, s.nla_log.auth_info_received, s.raw_mark_final.map(|m| s.raw_post_tls.len().saturating_sub(m)).unwrap_or(0)));
     Ok(Outcome { connect: res, reached_final_round: g.0, reply: g.1.clone(), honest: g.2, app_bytes_after: app_after, auth_info_received: auth_info, raw_bytes_after: raw_after, skipped: g.4 })
 }
 
@@ -582,6 +678,16 @@ pub fn check_case(ci: usize, class: usize, sub: u64, seed: u64, confs: &[Config]
                 );
             } else {
                 rep.hist(&format!("rejected:{}", o.connect.as_ref().err().cloned().unwrap_or_default()));
+                rep.hist(if o.raw_bytes_after == 0 { "rejected:link-silent-afterwards" } else { "rejected:raw-bytes-written-afterwards" });
+                if o.raw_bytes_after > 0 {
+                    // "writes nothing further on the link" is taken literally, at the raw transport below TLS
+                    rep.violation(
+                        format!("C01/{}/wrote-on-the-link-after-dishonest-reply", CLASSES[class]),
+                        format!("reply class {} variant {}: connect failed ({:?}) but {} raw bytes were written on the link after the reply", CLASSES[class], sub, o.connect, o.raw_bytes_after),
+                        rp.clone(),
+                    );
+                }
+                rep.max("raw_bytes_written_after_a_rejected_reply", o.raw_bytes_after as f64);
             }
             if rep.want_sample() {
                 let s = json!({"config": ci, "class": CLASSES[class], "sub": sub, "reply_len": o.reply.len(), "connect": format!("{:?}", o.connect)});
@@ -626,6 +732,7 @@ fn run_pass(cfg: &Cfg, seed: u64) -> Report {
                 "two-bit-checksum" => 28 * 8,
                 "length-variants" => 54,
                 "blind-attacker" => BLIND_FLAGS.len() as u64 * BLIND_REPLIES,
+                "reused-authentication-context" => REUSE_REPLIES,
                 _ => 40,
             };
             let confs_ref = &confs;
